@@ -1,7 +1,13 @@
 #!/bin/bash
-# independent re-check of every property file (and everything it depends on) with coqchk -o
+# Independent re-check of every property file (and everything it depends on) with `coqchk -o`,
+# one property at a time, each under a timeout (coqchk has no VM: files proved by large
+# vm_compute sweeps can take very long).  Writes /verif/coqchk.log.
 cd /verif/coq
-mods=$(ls Props/*.v | sed 's|Props/\(.*\)\.v|VV.Props.\1|' | tr '\n' ' ')
-echo "coqchk -silent -o -Q . VV $mods" > /verif/coqchk.log
-( time timeout 7200 coqchk -silent -o -Q . VV $mods ) >> /verif/coqchk.log 2>&1
-echo "exit $?" >> /verif/coqchk.log
+: > /verif/coqchk.log
+for f in Props/*.v; do
+  m=VV.Props.$(basename $f .v)
+  echo "==== coqchk -silent -o -Q . VV $m" >> /verif/coqchk.log
+  s=$(date +%s)
+  timeout ${1:-2400} coqchk -silent -o -Q . VV $m >> /verif/coqchk.log 2>&1
+  echo "---- exit $? after $(( $(date +%s) - s )) s" >> /verif/coqchk.log
+done
